@@ -132,7 +132,7 @@ fn f(name: &str, b: bool) -> Spec { Spec::F(fidx(name), b) }
 fn l(t: &str) -> BEl { BEl::Lit(t.into()) }
 
 pub fn inputs() -> Vec<BEl> {
-    vec![l("p"), l("a"), BEl::Grp('V'), BEl::Grp('C'), BEl::Mat(vec![f("voice", true)]), BEl::Mat(vec![f("cont", false), Spec::N(0, true)]), BEl::Set(vec![l("p"), l("a")]), BEl::Set(vec![l("t"), BEl::Grp('V')]), BEl::Grp('O')]
+    vec![l("p"), l("a"), BEl::Grp('V'), BEl::Grp('C'), BEl::Mat(vec![f("voice", true)]), BEl::Mat(vec![f("high", false)]), BEl::Mat(vec![f("ant", false)]), BEl::Mat(vec![f("cont", false), Spec::N(0, true)]), BEl::Set(vec![l("p"), l("a")]), BEl::Set(vec![l("t"), BEl::Grp('V')]), BEl::Grp('O')]
 }
 pub fn outputs(input: &BEl) -> Vec<BEl> {
     let mut v = vec![l("t"), l("i"), BEl::Mat(vec![f("voice", true)]), BEl::Mat(vec![f("nasal", true), f("syll", false)]), BEl::Mat(vec![Spec::N(4, false), f("cg", true)]), BEl::Mat(vec![f("high", false)])];
@@ -140,7 +140,8 @@ pub fn outputs(input: &BEl) -> Vec<BEl> {
     v
 }
 pub fn ctx_elements() -> Vec<BEl> {
-    vec![l("p"), l("a"), l("t"), BEl::Grp('V'), BEl::Grp('C'), BEl::Mat(vec![f("voice", true)]), BEl::Set(vec![l("p"), l("a")]), BEl::Set(vec![BEl::Grp('V'), BEl::WB]), BEl::Set(vec![BEl::SB, l("t")]), BEl::SB, BEl::WB]
+    // `[-round]`: a negated feature of a place sub-node, which `t`, `a`, `i` (no LABIAL node) match neither way and `p` matches
+    vec![l("p"), l("a"), l("t"), BEl::Grp('V'), BEl::Grp('C'), BEl::Mat(vec![f("voice", true)]), BEl::Mat(vec![f("round", false)]), BEl::Set(vec![l("p"), l("a")]), BEl::Set(vec![BEl::Grp('V'), BEl::WB]), BEl::Set(vec![BEl::SB, l("t")]), BEl::SB, BEl::WB]
 }
 /// all sides of length ≤ max (a `#` only at the outer edge, at most once)
 pub fn sides(max: usize, before: bool) -> Vec<Vec<BEl>> {
